@@ -62,8 +62,24 @@ def c01_encoding(tier, seed):
     r = _result("rt.c01_encoding", "random validated models (all connective classes, depth<=3, width<=3, 8 leaf bound "
                 "kinds incl. negative and 16-bit) x in-bounds leaf assignments (exhaustive when <=64 else sampled); "
                 "non-trivial = distinct (model text, assignment) with both truth values seen per model counted once")
+    import puan
+    from .gen import variants, rebuild
+    wide = [puan.variable("w1", (-32768, 32767)), puan.variable("w2", (0, 20000)), puan.variable("w3", (0, 2000000000)),
+            puan.variable("w4", (-32768, 32767)), puan.variable("w5", (0, 2000000000))]
+    import puan.logic.plog as pg
+    stream = []
     for m, rng in _models(tier, seed, depth=3):
-        if not _no_prefixed(m):
+        stream.extend((v, rng) for _, v in variants(m))
+    rngw = random.Random(seed + 17)
+    for _ in range(30 if tier == "quick" else 200):
+        a, b = rngw.sample(wide, 2)
+        k = rngw.choice([1, 3, 20000, 40000, 3000000000, -5])
+        inner = rngw.choice([lambda: pg.AtLeast(k, [a, b], variable="W"), lambda: pg.AtMost(abs(k), [a, b], variable="W"),
+                             lambda: pg.AtLeast(k, [a, b, "c"], variable="W")])()
+        stream.append((rngw.choice([lambda: pg.All(inner, "q", variable="T"), lambda: pg.Any(inner, "q", variable="T"),
+                                    lambda: pg.Imply("q", inner, variable="T")])(), rngw))
+    for m, rng in stream:
+        if not _no_prefixed(m) or m.errors() != []:
             continue
         leaves = leaves_of(m)
         text = m.to_text()
@@ -73,18 +89,21 @@ def c01_encoding(tier, seed):
         except BaseException as e:  # pyo3 panics are BaseException
             _viol(r, "c01.to_ge_polyhedron-raises", {"model": text}, error=repr(e)[:200])
             continue
-        for env in assignments(leaves, rng, 48 if tier == "quick" else 128):
+        for env in assignments(leaves, rng, 24 if tier == "quick" else 96):
             props = m.evaluate_propositions(dict(env))
             val = ref_truth(m, env)
             r["evaluations"] += 1
             r["_seen"].add((text, val))
             for name, poly, active in (("active", pa, True), ("inactive", pi, False)):
                 try:
-                    x = np.array([props[v.id].constant for v in poly.A.variables], dtype=np.int64)
+                    x = np.array([int(props[v.id].constant) for v in poly.A.variables], dtype=object)
                 except Exception as e:
                     _viol(r, "c01.column-without-value", {"model": text, "env": env}, error=repr(e))
                     continue
-                sat = bool((poly.A.dot(x) >= poly.b).all())
+                # exact integer arithmetic (Python ints): the check itself must not overflow
+                Ai = [[int(t) for t in row] for row in np.asarray(poly.A).tolist()]
+                bi = [int(t) for t in np.asarray(poly.b).tolist()]
+                sat = all(sum(a_ * int(x_) for a_, x_ in zip(row, x)) >= b_ for row, b_ in zip(Ai, bi))
                 if active and sat != (val == 1):
                     _viol(r, "c01.active-disagrees", {"model": text, "env": env}, satisfied=sat, truth=val)
                 if not active and not sat:
@@ -102,16 +121,23 @@ def c02_solutions(tier, seed):
                 "separately as reachability canaries (the converse may fail there)")
     import puan
     rng0 = random.Random(seed + 5)
-    pool = [puan.variable(n, b) for n, b in zip("abcde", [(0, 1), (0, 1), (0, 1), (-1, 1), (0, 2)])]
+    pool = [puan.variable(n, b) for n, b in zip("abcdef", [(0, 1), (0, 1), (0, 1), (-1, 0), (1, 2), (0, 3)])]
     n = 60 if tier == "quick" else 400
     done = 0
     canary = 0
     tries = 0
+    from .gen import variants
+    queue = []
     while done < n and tries < n * 30:
         tries += 1
-        m = rand_model(rng0, pool, depth=rng0.randint(1, 2), width=3)
-        if is_var(m) or m.errors() != [] or not well_defined(m) or not _no_prefixed(m):
-            continue
+        if not queue:
+            m0 = rand_model(rng0, pool, depth=rng0.randint(1, 2), width=3)
+            if is_var(m0) or m0.errors() != [] or not well_defined(m0) or not _no_prefixed(m0):
+                continue
+            queue = [v for _, v in variants(m0)]
+            if not queue:
+                continue
+        m = queue.pop(0)
         poly = m.to_ge_polyhedron(active=True)
         cols = list(poly.A.variables)
         doms = [range(v.bounds.lower, v.bounds.upper + 1) for v in cols]
@@ -460,6 +486,25 @@ def c10_validation(tier, seed):
         r["evaluations"] += 1
         r["_seen"].add(("sound-collide", errs == [], False))
         if errs == []:
+            _viol(r, "c10.accepts-ill-defined", {"model": _dump(m)})
+    # two non-sibling sub-propositions with one id, same sign/value/children ids, whose leaves have swapped hash-colliding
+    # bounds (equal equation bounds); and ids containing ',' so that "a","b" and "a,b" print alike
+    def two(b1, b2, b3, b4):
+        return pg.All(pg.Any(pg.AtLeast(2, [puan.variable("x", b1), puan.variable("y", b2)], variable="B"), "u", variable="U"),
+                      pg.Any(pg.AtLeast(2, [puan.variable("x", b3), puan.variable("y", b4)], variable="B"), "w", variable="W"),
+                      variable="TOP")
+    shapes = [two((0, 3), (1, 2), (1, 2), (0, 3)), two((-1, 0), (-2, 0), (-2, 0), (-1, 0)),
+              pg.All(pg.Any(pg.AtLeast(1, ["a", "b"], variable="B"), "u", variable="U"),
+                     pg.Any(pg.AtLeast(1, ["a,b"], variable="B"), "w", variable="W"), variable="TOP"),
+              pg.All(pg.Any(pg.AtLeast(1, ["a", "b"], variable="B"), "u", variable="U"),
+                     pg.Any(pg.AtLeast(1, ["a", "b", "c"], variable="B"), "w", variable="W"), variable="TOP"),
+              pg.All(pg.Any(pg.AtLeast(1, ["a", "b"], variable="B"), "u", variable="U"),
+                     pg.Any(pg.AtLeast(1, ["a", "b"], variable="B", sign=-1), "w", variable="W"), variable="TOP")]
+    for m in shapes:
+        errs = m.errors()
+        r["evaluations"] += 1
+        r["_seen"].add(("sound-shapes", errs == [], _wd_strict(m)))
+        if errs == [] and not _wd_strict(m):
             _viol(r, "c10.accepts-ill-defined", {"model": _dump(m)})
     # identical sharing
     for _ in range(n // 4):
